@@ -16,6 +16,8 @@ pub enum Case {
     Error { what: String, kind: i32, bound: Option<(X, X)>, id: u64 },
     /// infinite bound, run in an isolated subprocess
     Infinite { lower: X, upper: X },
+    /// log_encode called twice on the same variable, the bound changed in between
+    Twice { first: (X, X), second: (X, X) },
 }
 
 const ENC_ID: u64 = 5;
@@ -216,6 +218,45 @@ pub fn check_case(l: &mut Local, case: &Case) {
                 }
             }
         }
+        Case::Twice { first, second } => {
+            let mut msg = instance(KIND_INTEGER, Some((first.0 .0, first.1 .0)));
+            l.nontrivial += 1;
+            let r1 = sdk(|| msg.log_encode(ENC_ID).map_err(|e| format!("{e:#}")));
+            if !matches!(r1, Ok(Ok(_))) {
+                return; // the first call is the subject of the Range cases
+            }
+            for v in msg.decision_variables.iter_mut() {
+                if v.id == ENC_ID {
+                    let mut b = v1::Bound::default();
+                    b.lower = second.0 .0;
+                    b.upper = second.1 .0;
+                    v.bound = Some(b);
+                }
+            }
+            let before = msg.clone();
+            let enc = match sdk(|| msg.log_encode(ENC_ID).map_err(|e| format!("{e:#}"))) {
+                Err(p) => return l.violation("twice/panic", || json!(case), p),
+                Ok(Err(e)) => return l.violation("twice/second-call-rejected", || json!(case), format!("second log_encode on the same variable failed: {e}")),
+                Ok(Ok(e)) => e,
+            };
+            let (il, iu) = (second.0 .0.ceil(), second.1 .0.floor());
+            let w = (iu - il) as u64;
+            l.outcome(&("twice", w));
+            let old_ids: BTreeSet<u64> = before.decision_variables.iter().map(|v| v.id).collect();
+            let term_ids: Vec<u64> = enc.terms.iter().map(|t| t.id).collect();
+            let new_ids: BTreeSet<u64> = msg.decision_variables.iter().skip(before.decision_variables.len()).map(|v| v.id).collect();
+            if term_ids.iter().any(|i| old_ids.contains(i)) || term_ids.iter().cloned().collect::<BTreeSet<_>>() != new_ids {
+                l.violation(
+                    "twice/binaries-not-fresh",
+                    || json!(case),
+                    format!("second encoding uses ids {term_ids:?}; ids existing before the call {old_ids:?}; newly registered {new_ids:?}"),
+                );
+            }
+            let coefs: Vec<u64> = enc.terms.iter().map(|t| t.coefficient as u64).collect();
+            if q_opt(enc.constant) != Some(q(il)) || !(w == 0 && coefs.is_empty() || complete_sequence(&coefs, w)) {
+                l.violation("twice/value-set", || json!(case), format!("second encoding {il} + bits {coefs:?} does not cover exactly {il}..={iu}"));
+            }
+        }
         Case::Infinite { lower, upper } => {
             l.outcome(&(lower.0.to_bits(), upper.0.to_bits()));
             l.nontrivial += 1;
@@ -293,7 +334,8 @@ pub fn run(ctx: &Ctx) -> Finish {
     // 1. brute force: every width 0..=W at several lower ends and fractional offsets
     let wmax: u64 = 4096; // both tiers: the full sweep takes a few seconds
     let lowers: Vec<i64> = vec![-(1 << 20), -4097, -7, -1, 0, 1, 5];
-    let fr = [0.0, 0.25, 0.5, 0.75];
+    // fractional parts incl. one within 1e-6 of the next integer (a tolerant rounding would be wrong)
+    let fr = [0.0, 0.25, 0.5, 0.75, 1.0 - 5e-7];
     ctx.par((wmax + 1) as usize, |l, wi| {
         let w = wi as i64;
         let mut ls = lowers.clone();
@@ -303,7 +345,7 @@ pub fn run(ctx: &Ctx) -> Finish {
             for (a, fl) in fr.iter().enumerate() {
                 for (b, fu) in fr.iter().enumerate() {
                     // all 16 offset pairs at small widths, a rotating subset above
-                    if w > 64 && !t && (a + b + k + wi) % 4 != 0 {
+                    if w > 64 && !t && (a + b + k + wi) % 5 != 0 {
                         continue;
                     }
                     let case = Case::Range { lower: X(*lo as f64 - fl), upper: X((*lo + w) as f64 + fu), brute_force: true };
@@ -324,6 +366,16 @@ pub fn run(ctx: &Ctx) -> Finish {
                 }
             }
             check_case(l, &Case::Range { lower: X(lo), upper: X(lo), brute_force: true });
+        }
+    });
+    // second call on the same variable, with the same and with a changed bound
+    ctx.seq(|l| {
+        let bounds = [(0.0, 3.0), (0.0, 10.0), (-2.0, 5.0), (1.0, 1.0), (0.0, 1.0), (4.0, 9.5)];
+        for a in bounds {
+            for b in bounds {
+                l.states += 1;
+                check_case(l, &Case::Twice { first: (X(a.0), X(a.1)), second: (X(b.0), X(b.1)) });
+            }
         }
     });
     // 2. every width up to 2^21 (quick: 2^17) through the complete-sequence criterion
